@@ -24,15 +24,22 @@ type Limits struct {
 	MaxIncludeDepth  int
 }
 
+// parsedFile is what the loader remembers about an included file: the journal and the parse errors
+// of the file itself. The files it includes are resolved again on every load.
+type parsedFile struct {
+	journal   *ast.Journal
+	parseErrs []parser.ParseError
+}
+
 type Loader struct {
 	mu     sync.RWMutex
-	cache  map[string]*ast.Journal
+	cache  map[string]parsedFile
 	limits Limits
 }
 
 func NewLoader() *Loader {
 	return &Loader{
-		cache:  make(map[string]*ast.Journal),
+		cache:  make(map[string]parsedFile),
 		limits: DefaultLimits(),
 	}
 }
@@ -110,6 +117,12 @@ func (l *Loader) LoadFromContent(path, content string) (*ResolvedJournal, []Load
 }
 
 func (l *Loader) loadWithContent(path, content string, visited map[string]bool) (*ResolvedJournal, []LoadError) {
+	journal, parseErrs := parser.Parse(content)
+	return l.loadParsed(path, parsedFile{journal: journal, parseErrs: parseErrs}, visited)
+}
+
+// loadParsed resolves the includes of an already parsed file.
+func (l *Loader) loadParsed(path string, file parsedFile, visited map[string]bool) (*ResolvedJournal, []LoadError) {
 	var errors []LoadError
 	limits := l.getLimits()
 
@@ -121,8 +134,8 @@ func (l *Loader) loadWithContent(path, content string, visited map[string]bool) 
 		}}
 	}
 
-	journal, parseErrs := parser.Parse(content)
-	for _, e := range parseErrs {
+	journal := file.journal
+	for _, e := range file.parseErrs {
 		pos := ast.Position{
 			Line:   e.Pos.Line,
 			Column: e.Pos.Column,
@@ -201,8 +214,9 @@ func (l *Loader) loadSingleInclude(
 	cached, ok := l.cache[includePath]
 	l.mu.RUnlock()
 	if ok {
-		result.Files[includePath] = cached
-		result.FileOrder = append(result.FileOrder, includePath)
+		subResult, subErrors := l.loadParsed(includePath, cached, visited)
+		errors = append(errors, subErrors...)
+		mergeInclude(result, includePath, subResult)
 		return errors
 	}
 
@@ -238,20 +252,30 @@ func (l *Loader) loadSingleInclude(
 		return errors
 	}
 
-	subResult, subErrors := l.loadWithContent(includePath, string(incContent), visited)
+	journal, parseErrs := parser.Parse(string(incContent))
+	file := parsedFile{journal: journal, parseErrs: parseErrs}
+	subResult, subErrors := l.loadParsed(includePath, file, visited)
 	errors = append(errors, subErrors...)
 
 	if subResult != nil && subResult.Primary != nil {
 		l.mu.Lock()
-		l.cache[includePath] = subResult.Primary
+		l.cache[includePath] = file
 		l.mu.Unlock()
-		result.Files[includePath] = subResult.Primary
-		result.FileOrder = append(result.FileOrder, includePath)
-		maps.Copy(result.Files, subResult.Files)
-		result.FileOrder = append(result.FileOrder, subResult.FileOrder...)
 	}
+	mergeInclude(result, includePath, subResult)
 
 	return errors
+}
+
+// mergeInclude adds an included file and everything it includes to the result of the including file.
+func mergeInclude(result *ResolvedJournal, includePath string, subResult *ResolvedJournal) {
+	if subResult == nil || subResult.Primary == nil {
+		return
+	}
+	result.Files[includePath] = subResult.Primary
+	result.FileOrder = append(result.FileOrder, includePath)
+	maps.Copy(result.Files, subResult.Files)
+	result.FileOrder = append(result.FileOrder, subResult.FileOrder...)
 }
 
 func (l *Loader) expandGlob(basePath, pattern string) ([]string, error) {
@@ -288,7 +312,7 @@ func (l *Loader) expandGlob(basePath, pattern string) ([]string, error) {
 func (l *Loader) ClearCache() {
 	l.mu.Lock()
 	defer l.mu.Unlock()
-	l.cache = make(map[string]*ast.Journal)
+	l.cache = make(map[string]parsedFile)
 }
 
 func (l *Loader) InvalidateFile(path string) {
